@@ -4,11 +4,32 @@
 use crate::assembly::{Instr, Line, Reg};
 use crate::vm::{AbraInt, checked_pow_int};
 
+// An immediate operand is a 16-bit index into the int (resp. float) constant table.
+const MAX_IMM_CONSTANTS: usize = 65536; // 2^16
+
 pub(crate) fn optimize(lines: Vec<Line>) -> Vec<Line> {
+    // Every constant of the optimized program is carried by a line that descends from a
+    // distinct PushInt (resp. PushFloat) line of the input: folding and fusing never increase
+    // the number of such lines. With at most 2^16 of them every constant index fits an
+    // immediate operand; otherwise immediates are not introduced at all.
+    let mut n_int = 0;
+    let mut n_float = 0;
+    for line in &lines {
+        if let Line::Instr { instr, .. } = line {
+            match instr {
+                Instr::PushInt(_) => n_int += 1,
+                Instr::PushFloat(_) => n_float += 1,
+                _ => {}
+            }
+        }
+    }
+    let imm_int_ok = n_int <= MAX_IMM_CONSTANTS;
+    let imm_float_ok = n_float <= MAX_IMM_CONSTANTS;
+
     let mut len = lines.len();
     let mut ret = lines;
     loop {
-        ret = optimization_pass(ret);
+        ret = optimization_pass(ret, imm_int_ok, imm_float_ok);
         if ret.len() < len {
             len = ret.len();
         } else {
@@ -18,7 +39,7 @@ pub(crate) fn optimize(lines: Vec<Line>) -> Vec<Line> {
     ret
 }
 
-fn optimization_pass(lines: Vec<Line>) -> Vec<Line> {
+fn optimization_pass(lines: Vec<Line>, imm_int_ok: bool, imm_float_ok: bool) -> Vec<Line> {
     let mut ret: Vec<Line> = Vec::with_capacity(lines.len());
 
     let mut index = 0;
@@ -29,7 +50,7 @@ fn optimization_pass(lines: Vec<Line>) -> Vec<Line> {
             index += 3;
             continue;
         }
-        if peephole2_helper(&lines, index, &mut ret) {
+        if peephole2_helper(&lines, index, &mut ret, imm_int_ok, imm_float_ok) {
             index += 2;
             continue;
         }
@@ -72,7 +93,13 @@ fn peephole1_helper(lines: &[Line], index: usize, _ret: &mut Vec<Line>) -> bool 
     }
 }
 
-fn peephole2_helper(lines: &[Line], index: usize, ret: &mut Vec<Line>) -> bool {
+fn peephole2_helper(
+    lines: &[Line],
+    index: usize,
+    ret: &mut Vec<Line>,
+    imm_int_ok: bool,
+    imm_float_ok: bool,
+) -> bool {
     match lines[index].clone() {
         Line::Label(_) => false,
         Line::Instr {
@@ -138,7 +165,7 @@ fn peephole2_helper(lines: &[Line], index: usize, ret: &mut Vec<Line>) -> bool {
                         true
                     }
                     // PUSHINT STORE -> STORE IMM
-                    (Instr::PushInt(n), Instr::StoreOffset(offset)) => {
+                    (Instr::PushInt(n), Instr::StoreOffset(offset)) if imm_int_ok => {
                         ret.push(Line::Instr {
                             instr: Instr::StoreOffsetImm(*offset, n),
                             lineno,
@@ -186,7 +213,8 @@ fn peephole2_helper(lines: &[Line], index: usize, ret: &mut Vec<Line>) -> bool {
                     }
                     // PUSHINT(N) ADD_INT(_, _, TOP) -> ADD_INT_IMM(_, _, N)
                     (instr1, instr2)
-                        if instr1.is_push_imm_int()
+                        if imm_int_ok
+                            && instr1.is_push_imm_int()
                             && instr2.second_arg_is_top()
                             && instr2.can_replace_second_arg_with_imm_int() =>
                     {
@@ -202,7 +230,8 @@ fn peephole2_helper(lines: &[Line], index: usize, ret: &mut Vec<Line>) -> bool {
                     }
                     // PUSHFLOAT(N) ADD_FLOAT(_, _, TOP) -> ADD_FLOAT_IMM(_, _, N)
                     (instr1, instr2)
-                        if instr1.is_push_imm_float()
+                        if imm_float_ok
+                            && instr1.is_push_imm_float()
                             && instr2.second_arg_is_top()
                             && instr2.can_replace_second_arg_with_imm_float() =>
                     {
